@@ -81,7 +81,7 @@ func (client *MTCPClient) handler() {
 	defer ticker.Stop()
 
 	// Introduce ourselves once
-	client.reportChan <- cla.NewConvergencePeerAppeared(client, client.GetPeerEndpointID())
+	client.report(cla.NewConvergencePeerAppeared(client, client.GetPeerEndpointID()))
 
 	for {
 		select {
@@ -104,9 +104,18 @@ func (client *MTCPClient) handler() {
 					"error":  err,
 				}).Error("MTCPClient: Keepalive errored")
 
-				client.reportChan <- cla.NewConvergencePeerDisappeared(client, client.GetPeerEndpointID())
+				client.report(cla.NewConvergencePeerDisappeared(client, client.GetPeerEndpointID()))
 			}
 		}
+	}
+}
+
+// report a ConvergenceStatus from within the handler. The reader of the report channel might be the one who is
+// closing this client right now; the status is dropped then, so the handler gets to its stop signal.
+func (client *MTCPClient) report(cs cla.ConvergenceStatus) {
+	select {
+	case client.reportChan <- cs:
+	case <-client.stopSyn:
 	}
 }
 
